@@ -6,8 +6,8 @@ CODEGEN = "packages/beff-client/src/codegen-v2.ts"
 
 
 class Family:
-    def __init__(self, cx):
-        self.mod = cx.ts(CODEGEN)
+    def __init__(self, cx, path=None):
+        self.mod = cx.ts(path or CODEGEN)
         m = self.mod
         self.iface = m.interfaces.get("Runtype")
         self.iface_methods = []
@@ -58,16 +58,24 @@ class Family:
         return out
 
 
-def this_fields_read(fn):
-    """names f of `this.f` member reads inside a function (nested closures included: arrows keep `this`)"""
+def this_fields_read(fn, mod=None, cname=None):
+    """names f of `this.f` member reads inside a function (nested closures included: arrows keep `this`), also when
+    they are read by destructuring (`const { f, g: local } = this`).  With `mod` / `cname`, local helpers are seen
+    through: private methods called on `this` and module-level functions that are handed `this` (tsast.walk_inl)."""
     out = {}
-    for n in walk(fn):
+    nodes = tsast.walk_inl(mod, cname, fn, depth=2) if mod is not None else walk(fn)
+    for n in nodes:
         if n["type"] == "MemberExpression" and n["object"]["type"] == "ThisExpression" and n["property"]["type"] == "Identifier":
             out.setdefault(n["property"]["value"], n)
         if n["type"] == "OptionalChainingExpression":
             b = n["base"]
             if b["type"] == "MemberExpression" and b["object"]["type"] == "ThisExpression" and b["property"]["type"] == "Identifier":
                 out.setdefault(b["property"]["value"], n)
+        if n["type"] == "VariableDeclarator" and n.get("init") is not None and unparen(n["init"]).get("type") == "ThisExpression" and n["id"].get("type") == "ObjectPattern":
+            for pp in n["id"]["properties"]:
+                k = pp.get("key") or {}
+                if pp["type"] in ("AssignmentPatternProperty", "KeyValuePatternProperty") and k.get("type") == "Identifier":
+                    out.setdefault(k["value"], n)
     return out
 
 
@@ -118,7 +126,7 @@ def digest_structure_rules(cx, rep, rid):
                 continue
             fn = c.methods[mname]["function"]
             n_methods += 1
-            reads = this_fields_read(fn)
+            reads = this_fields_read(fn, mod, cname)
             rep.ob(rid, "%s.%s/no-metadata" % (cname, mname), "metadata" not in reads,
                    "%s.%s reads this.metadata: a JSDoc comment / description would change the digest" % (cname, mname),
                    mod.loc(reads.get("metadata") or fn), sample={"method": "%s.%s" % (cname, mname), "fields_read": sorted(reads)})
@@ -545,10 +553,7 @@ def ctor_param_reads(fam, cname, fn):
                         fp.setdefault(nm, set()).add(ps.index(nm))
         if on != cname:
             break      # own constructor first; one level of inheritance for the shared base fields
-    reads = set()
-    for x in tsast.walk_inl(fam.mod, cname, fn):
-        if x["type"] == "MemberExpression" and x["object"]["type"] == "ThisExpression" and x["property"]["type"] == "Identifier":
-            reads.add(x["property"]["value"])
+    reads = set(this_fields_read(fn, fam.mod, cname))
     return sorted({i for f_ in reads for i in fp.get(f_, ())})
 
 
@@ -582,3 +587,69 @@ def field_matrix_rule(cx, rep, rid, methods):
                                                                                          "parseAfterValidation": "projected", "reportDecodeError": "reported"}.get(mname, "described")),
                    fam.mod.loc(m), sample={"class": cname, "method": mname, "reads_ctor_params": now})
     rep.floor(rid, "class x method cells compared", n, max(5, 8 * len(methods)))
+
+
+
+def truncating_reads(fam, methods):
+    """[(class, method, call node, text)] : `X.slice(a, N)` with a positive literal N (or `X.splice`, `X.length = ..`)
+    where X is an array-valued field of the class (helpers seen through, arguments substituted for parameters)"""
+    out = []
+    mod = fam.mod
+    for cname in sorted(fam.concrete()):
+        arrays = set()
+        for fname, (owner, ann) in fam.all_fields(cname).items():
+            t = tsast.type_str(ann) if ann is not None else ""
+            if t.endswith("[]") or t.startswith(("Array<", "ReadonlyArray<", "readonly ")):
+                arrays.add(fname)
+        if not arrays:
+            continue
+        for mname in methods:
+            _, m = fam.resolve_method(cname, mname)
+            if not m or m["function"].get("body") is None:
+                continue
+            fn = m["function"]
+            al = local_aliases(fn)
+            for n in tsast.walk_inl(mod, cname, fn, depth=3):
+                if n["type"] != "CallExpression":
+                    continue
+                mc = method_call(n)
+                if not mc or mc[1] != "slice" or len(mc[2]) != 2:
+                    continue
+                hi = unparen(mc[2][1])
+                if hi.get("type") != "NumericLiteral" or not hi["value"] > 0:
+                    continue
+                recv = unparen(mc[0])
+                if recv.get("type") == "Identifier" and recv["value"] in al:
+                    recv = unparen(al[recv["value"]])
+                t = s(recv)
+                if t.startswith("this.") and t[5:] in arrays:
+                    out.append((cname, mname, n, "%s.slice(%s, %s)" % (t, s(mc[2][0]), s(hi))))
+    return out
+
+
+def truncation_rule(cx, rep, rid, methods):
+    """An interface method must account for EVERY element of an array-valued constructor argument (all formats of a
+    format chain, all members of a union, all items of a tuple): `fields.slice(0, N)` with a literal N > 0 keeps a
+    fixed-size prefix, so longer arrays are validated / printed / hashed as if they were shorter - the classic slip
+    is slice(0, 1) for slice(0, -1).  Expected count on the repository: 0; the canary module must match once."""
+    fam = Family(cx)
+    hits = truncating_reads(fam, methods)
+    seen = set()
+    for cname, mname, n, txt in hits:
+        key = "%s.%s/%s" % (cname, mname, txt)
+        if key in seen:
+            continue
+        seen.add(key)
+        rep.ob(rid, key, False,
+               "%s.%s reads %s: only a fixed-size prefix of the array reaches the result, the remaining elements are ignored for every longer array (a format chain of three loses its middle format, a union its later members)" % (cname, mname, txt),
+               fam.mod.loc(n), sample={"class": cname, "method": mname, "read": txt})
+    n_m = sum(1 for cname in fam.concrete() for mname in methods if fam.resolve_method(cname, mname)[1])
+    rep.ob(rid, "scanned", True, sample={"class_methods_scanned": n_m, "truncating_reads": len(seen)})
+    rep.floor(rid, "class methods scanned for truncating reads", n_m, 5)
+    try:
+        cfam = Family(cx, "canary/ts/truncate.ts")
+        chits = {c for c, _, _, _ in truncating_reads(cfam, ["describe"])}
+        rep.ob(rid, "control/canary-truncation", chits == {"TruncatingRuntype"},
+               "positive control: canary/ts/truncate.ts must yield exactly the TruncatingRuntype match (got %s)" % sorted(chits), "canary/ts/truncate.ts")
+    except Exception as e:
+        rep.ob(rid, "control/canary-truncation", False, "positive control could not be evaluated: %s" % e, "canary/ts/truncate.ts")
